@@ -237,6 +237,9 @@ func TestCheck(t *testing.T) {
 		"kernel lease-expiry clock is uptime; virtual time only drives the userspace side",
 		"pppoe.Server has no NAT/QoS/eBPF/accounting integration and no administrative or RADIUS-Disconnect entry point: for that kind the resources are the session-table entry, the MAC index and the pool address",
 		"pppoe.SessionTeardown and subscriber.Manager only end sessions: establishment and the wiring of their callbacks/events to nat.Manager, qos.Manager, radius.Client/AccountingManager and radius.CoAProcessor is done by the harness the way a deployment would (real collaborators, no mocks of repository code); the IDLE path of the teardown kind is a caller that still holds the *Session",
+		"fault configurations (.../fault=X): exactly one release step of the victim's teardown is failed by injection (allocator ReleaseIPv4/ReleaseIPv6 error, UpdateEBPFMaps callback error, RADIUS server failing the Accounting-Stop); the resource behind the failed step is exempt (for a failed Stop: exactly one attempt is required), every other clause of the oracle applies unchanged",
+		"late prefixes (DHCP DRL/DRX, pppoe IPCP-LATE, subscriber ACTIVE-LATE): the session's deadline (lease time, idle timeout) has passed and the client acts again at an instant strictly between that deadline and the next tick of the periodic sweep; computed from the real lease expiry and the sweep period, not from wall time",
+		"Accounting clause is evaluated per Acct-Session-Id: every session id that got a Start gets exactly one Stop, no Stop without a Start",
 		"Engine B: scheduling points are lock operations, go statements and timers of the rewritten packages (radius, pppoe, subscriber, dhcp); nat/qos/ebpf code runs atomically between them; the end-of-schedule oracle runs inside the execution with scheduling off",
 	}
 	dir, err := os.MkdirTemp(filepath.Join(nativebpf.Root(), ".work"), "c16-")
@@ -249,7 +252,7 @@ func TestCheck(t *testing.T) {
 		os.Exit(run.Finish())
 	}
 	fin := func(code int) { os.RemoveAll(dir); os.Exit(code) }
-	nenv := 8
+	nenv := 12
 	if n := runtime.NumCPU(); n < nenv {
 		nenv = n
 	}
